@@ -11,6 +11,7 @@
                                           →  complete <n> | incomplete <n>   what an origin reads of `forwardedUpload`
    label   <addr-hex>                     →  <hex>   `addr2Host`: the `host` label of the dialer's metrics
    utf8    <hex>                          →  0|1     `validUTF8` (= `utf8.ValidString`)
+   basicauth <value-hex> <user-hex> <pass-hex>  →  0|1|panic   `authenticatedGo`: the basic-auth control on the value `Header.Get` returns
    holds   id=… kind=… … obs=<obs with , for space>                   →  true | false <reason>
    loop    <o|c|x,…>                      →  closed <n> | open <errorsN>
    h2err   <dial-failed|dial-timeout|tls-failed|eof|bad-preface>      →  o|c|x
@@ -254,6 +255,15 @@ def handle : List String → String
     match bytesOfHex a with
     | some addr => hexOfBytes (addr2Host addr)
     | none => "bad-op"
+  | ["basicauth", v, u, p] =>
+    -- the basic-auth control on a Proxy-Authorization value as `Header.Get` returns it: decision + what Go's
+    -- slice expressions do on the way (`authenticatedGo`; `c12_basic_auth_decides`: never `panic`)
+    match bytesOfHex v, bytesOfHex u, bytesOfHex p with
+    | some v, some u, some p =>
+      match authenticatedGo u p v with
+      | .panic => "panic"
+      | .ret b => ofBool b
+    | _, _, _ => "bad-op"
   | ["utf8", h] =>
     match bytesOfHex h with
     | some l => ofBool (validUTF8 l)
